@@ -59,6 +59,9 @@ def build_inputs(tier):
         if tier != "quick" or r.random() < 0.15:
             for i in range(0, len(s), max(1, len(s) // 12)):
                 cases.append(("prefix", s[:i], "exec"))
+    for s in list(corpus.PY_STMTS) + list(xonshgen.XONSH_STMTS):
+        for d in mutate.token_deletions(s):
+            cases.append(("tokdel", d, "exec"))
     unterminated = ["'abc", '"abc\n', "'''abc\n", 'f"abc', 'f"{x', "f'{x:", "f'''{x\n", "(", "[1,\n", "{a:\n\n", "x = (\n", "a \\", "a \\\n", "\\", "$(", "$(ls", "![ls", "f!(", "f!(x", "f!(x,", "f!(]", "f!(x) 1\n", "with! a:", "with! a:\n", "with! a:\n  x", "$(echo! ", "x = (1 +\n\n\n 2) 3\n", "[a,\n\n b for b in c]\n", "`abc", "p'", "@(", "@$(", "${", "a?", "a??", "?", "a ¤\n", "a\x00\n", "\ufeffx\n", "x = 1\ry = 2", "\r", "\x0c", "if x:\n\ty\n        z\n", "if x:\n    y\n  z\n", " x\n", "def f(:\n", "class\n", "0x", "1e", "1__0", "0b2", "'\\", "f!(a)(b)!(c)\n", "f!(a) g!(b)\n", "f!(\n", "f!(a,\n b)\n", "with! a:\n    b\nwith! c:\n", "!(a! b) c", "f!(x))\n", "f!(x)]\n"]
     for s in unterminated:
         cases.append(("unterminated", s, "exec"))
